@@ -42,7 +42,7 @@ PROPS = {
         kani=[],
     ),
     'C17': dict(
-        units=[('ser', r'(raw_size|frame_counts|gecko_codes_size|payload_sizes|PayloadSizes|lemma_|C17|Frame::write|::write$|Frame::len|C01\.payload_table|C01\.file_layout|C01\.frames_canonical_order|C01\.gecko_blocks)')],
+        units=[('ser', r'(raw_size|frame_counts|gecko_codes_size|payload_sizes|PayloadSizes|lemma_|emit_len|C17|Frame::write|::write$|Frame::len|C01\.payload_table|C01\.file_layout|C01\.frames_canonical_order|C01\.gecko_blocks)')],
         kani=[],
     ),
     'C04': dict(
